@@ -75,6 +75,8 @@ class Hist:
         solver = create_solver()
         active = Path(solver)
         expect = {id(active): []}
+        cands = {id(active): {}}  # expected size-candidate table (symbol name -> list) of each path
+        nsym = 0
         keep = [active]  # keep every Path alive: id() must stay unique
         stack = []
         outer = []  # worklists of the earlier transactions (their pending siblings are explored afterwards)
@@ -97,6 +99,11 @@ class Hist:
                 if r != "yes":
                     problems.append(dict(kind="mirror" if r == "no" else "unknown", step=step, what=what,
                                          detail=f"solver holds {asr} but the active path is {exp}; differ at {m}"))
+            got = {str(k): list(v) for k, v in active.concretization.candidates.items()}
+            if got != cands[id(active)]:
+                problems.append(dict(kind="candidates", step=step, what=what,
+                                     detail=f"size candidates known to the active path {got} vs registered on it or its "
+                                            f"ancestors {cands[id(active)]}"))
             for p, snap in frozen:
                 if list(p.conditions) != snap:
                     # a finished path (e.g. the setUp path) changed after something was started from it: what does the
@@ -112,7 +119,18 @@ class Hist:
 
         for step in range(self.steps):
             u = self.rng.random()
-            if u < 0.45:
+            if u < 0.08:
+                # symbolic calldata with a dynamic parameter is created on this path (test calldata, svm.createCalldata)
+                from halmos.calldata import DynamicParam
+
+                sym = z3.BitVec(f"p_len_{nsym}", 256)
+                nsym += 1
+                choices = self.rng.choice([[0, 1, 2], [32], [0, 65, 1024]])
+                self.ops.append(("dyn", str(sym), choices))
+                active.process_dyn_params([DynamicParam(f"a{nsym}", list(choices), sym, None)])
+                cands[id(active)] = {**cands[id(active)], str(sym): list(choices)}
+                check(step, "dyn-param")
+            elif u < 0.45:
                 c = self.pick(pool)
                 self.ops.append(("append", str(c)))
                 active.append(c)
@@ -127,6 +145,7 @@ class Hist:
                     child = active.branch(c)
                     keep.append(child)
                     expect[id(child)] = expect[id(active)] + [c]
+                    cands[id(child)] = dict(cands[id(active)])
                     mirror_ok[id(child)] = mirror_ok[id(active)]
                     stack.append(child)
                 if k == 1 and not z3.is_true(z3.simplify(c)) and self.rng.random() < 0.8:
@@ -160,6 +179,7 @@ class Hist:
                     keep.append(active)
                     active.extend_path(old)
                     expect[id(active)] = list(expect[id(old)])
+                    cands[id(active)] = dict(cands[id(old)])
                     mirror_ok[id(active)] = old.sliced is None
                     outer.append(stack)
                     stack = []
